@@ -91,7 +91,8 @@ class ThrRunner:
         self.handler = _CountHandler()
         if scn.get("user_logger", True):
             self.logger = logging.getLogger(f"verif.{id(self)}")
-            self.logger.handlers = [self.handler]
+            # "late": the application attaches its handler only after the scheduler was constructed
+            self.logger.handlers = [] if scn.get("late_handler") else [self.handler]
             self.logger.propagate = False
             self.logger.setLevel(logging.DEBUG)
             self.logger.disabled = False
@@ -162,6 +163,8 @@ class ThrRunner:
             self.ctor_error = err_kind(e)
             kw.pop("jobs", None)
             self.sched = Scheduler(**kw)
+        if scn.get("user_logger", True) and scn.get("late_handler"):
+            self.logger.handlers = [self.handler]
         self.ctor_pos = 0
 
     def exc_class(self, key):
@@ -260,7 +263,10 @@ class ThrRunner:
             args = {"none": None, "empty": (), "one": (payload,), "many": (payload, "x", 3.5, None, b"b"),
                     "nested": (payload, [1, [2, 3]], {"k": (4, 5)})}[ash]
             kwargs = {"none": None, "empty": {}, "one": {"p": payload},
-                      "many": {"p": payload, "a": 1, "b": "two", "c": None, "d": (1, 2), "e": 2.5}}[ksh]
+                      "many": {"p": payload, "a": 1, "b": "two", "c": None, "d": (1, 2), "e": 2.5},
+                      # names that the library itself uses for parameters somewhere on the way to the callback
+                      "reserved": {"p": payload, "self": 1, "cls": 2, "logger": 3, "job": 4, "handle": 5, "args": (6,), "kwargs": {"k": 7},
+                                   "timing": 8, "tags": {"t"}, "weight": 9, "coroutine": 10}}[ksh]
             want_args = () if args is None else tuple(args)
             want_kwargs = {} if kwargs is None else dict(kwargs)
             cell["orig_kwargs"] = kwargs
